@@ -17,7 +17,7 @@ bad = 0
 for c, o, v in zip(cases, outs, ver):
     if v != "1":
         bad += 1
-        cl = props_E2E.classify_e2e({"component": comp["name"], "case": c, "impl": o})
+        cl = comp.get("classify", lambda p: None)({"component": comp["name"], "case": c, "impl": o})
         print("REJECT", cl, c, o[:300])
 print("cases", len(cases), "impl %.1fs judge %.1fs rejected %d" % (t1 - t, t2 - t1, bad), "nontrivial", sum(1 for c, o in zip(cases, outs) if not o.startswith("!") and comp["nontrivial"](c, parse_hexline(o))))
 if "histogram" in comp: print(comp["histogram"](cases, outs))
